@@ -194,7 +194,7 @@ def run(chk, cases, timeout_s):
     narrow = [i for i, c in enumerate(cases) if c["st"] in ("i8", "u8", "bit") or c.get("witness")]
     wide = [i for i in range(len(cases)) if i not in set(narrow)]
     outs = [None] * len(cases)
-    for i, o in zip(narrow, pool_map(analyze, [(cases[i], results[i], timeout_s) for i in narrow])):
+    for i, o in zip(narrow, pool_map(analyze, [(cases[i], results[i], max(timeout_s, cases[i].get("timeout", 0))) for i in narrow])):
         outs[i] = o
     refuted = {cases[i]["template"] for i in narrow if outs[i]["status"] == "sat" and not cases[i].get("witness")}
     wide_run = [i for i in wide if cases[i]["template"] not in refuted]
